@@ -6,6 +6,17 @@ claim("C08", "Every view class (StreamOffset, FileStream/SectorStream, MdfStream
       "geometry and sector numbers symbolic, z3 shows the results equal an independent read-only-file model, or returns a history that is replayed on io.BytesIO.",
       XT, "DESIGN.md 2/C08")
 
+claim("C07", "The real SAT/FAT decoders, get_path, get_file, add_to_sector_links and FileStream are executed symbolically on tables whose raw 16-bit "
+      "words are all symbolic; z3 shows that every well-formed chain resolves to exactly the reference walk, that the byte stream over it is the "
+      "concatenation of those sectors, and (unwinding assertion over fuel lists) that no table in the bound makes resolution loop.",
+      XT + "; termination as solver-checked unwinding assertion", "DESIGN.md 2/C07")
+
+claim("C01", "The stream stack of an AKAI sample file is built by the live construct nodes (partition window, file_stream lambda, data_stream window) over an "
+      "abstract file and drained through the real AkaiSample.to_generalized / WavSampleAdapter._encode / transcoder; for every partition start, sector order, "
+      "file size and marker pair in the bound z3 shows the emitted bytes are exactly words [start,end) of the chain; window expressions and the sample-rate "
+      "path are separate obligations; chains = C07, names/pairs = C05/C06.",
+      XT, "DESIGN.md 2/C01")
+
 _pending = "check not built yet in this session (work in progress; see DESIGN.md section 2 for the planned obligations)"
 for _p in ["C01","C02","C03","C04","C05","C06","C07","C09","C10","C11","C12","C13","C14","C15","C16","C17","C18","C19","C20"]:
     if _p not in CHECKS:
